@@ -52,6 +52,7 @@ def plan(tier, seed):
     specs.append({"kind": "inputs_sweep", "idx": 0, "budget_s": 20 if q else 150})
     specs.append({"kind": "held_reference", "idx": 0, "budget_s": 20 if q else 150})
     specs.append({"kind": "returned_objects", "idx": 0, "budget_s": 15 if q else 100})
+    specs.append({"kind": "huge_copy", "idx": 0, "timeout_s": 900})
     trials = 32 if q else 200
     for part in range(8 if q else 12):
         specs.append({"kind": "first_use", "part": part, "parts": 8 if q else 12, "trials": trials, "timeout_s": 900 if q else 2400})
@@ -64,7 +65,7 @@ def finalize(agg, tier):
     for n in ("thread_runs:tsan", "thread_runs:plain", "thread_transcripts_compared", "hammer_digests", "interleaved_programs",
               "copies_checked", "destroyed_neighbours", "snapshots_compared", "signer_hash_state_checked", "first_use_trials",
               "first_use_yields_injected", "native_hammer_calls", "native_hammer_runs:plain", "native_hammer_runs:tsan", "python_hammer_calls", "random_storm_draws", "input_sweep_rounds",
-              "input_buffers_compared", "held_reference_objects", "integer_inputs_compared", "returned_objects_checked"):
+              "input_buffers_compared", "held_reference_objects", "integer_inputs_compared", "returned_objects_checked", "huge_state_copies"):
         if not c.get(n):
             out.append("deciding counter %s is zero" % n)
     for cv in CURVES:
@@ -1197,6 +1198,43 @@ def w_held_reference(spec, ctx):
                           "immutable copies once the caller has overwritten its buffers (a reference was kept instead of a copy)",
                           lambda: {"object": name, "parameters_given_as": pres, "buffers_overwritten": len(held),
                                    "twin_result": expect.hex()[:120], "result": got.hex()[:120] if isinstance(got, bytes) else repr(got)[:200]})
+
+
+def w_huge_copy(spec, ctx):
+    """copy() of an object whose state carries a LARGE history (more than 2^32 bits absorbed, so that every limb of its length
+    counter is in use): clone and original, continued with the same octets, must agree; continued differently, must differ,
+    and finishing one must not move the other."""
+    import importlib
+    from Crypto.Hash import HMAC, SHA256
+    n = (1 << 29) + 200
+    data = bytearray(n)
+    data[0], data[n // 3], data[-1] = 5, 6, 7
+    mv = memoryview(data)
+    makers = [(name, (lambda m: (lambda: m.new()))(importlib.import_module("Crypto.Hash." + name)))
+              for name in ("SHA256", "SHA224", "SHA1", "MD5", "SHA512", "SHA384", "RIPEMD160", "SHA3_256", "SHAKE128")]
+    makers.append(("HMAC-SHA256", lambda: HMAC.new(b"k" * 32, digestmod=SHA256)))
+    for name, mk in makers:
+        fin = (lambda o: o.read(32)) if name == "SHAKE128" else (lambda o: o.digest())
+        o = mk()
+        o.update(mv)
+        c = o.copy()
+        twin = mk()                    # a second object with the same history, never copied
+        twin.update(mv)
+        c.update(b"tail")
+        c2 = o.copy()
+        c2.update(b"other tail")
+        d_c2 = fin(c2)
+        o.update(b"tail")
+        twin.update(b"tail")
+        d_o, d_c, d_t = fin(o), fin(c), fin(twin)
+        ctx.case(("huge-copy", name))
+        ctx.count("huge_state_copies")
+        ctx.check(d_o == d_c == d_t and d_c2 != d_o, "copy:%s:clone-of-huge-state-diverges" % name,
+                  "after 2^29 + 200 octets, obj.copy() continued with the same octets does not give the result of the original / of an "
+                  "object with the same history (or a differently continued clone gives the same result)",
+                  lambda: {"class": name, "octets_before_copy": n, "original": d_o.hex(), "clone": d_c.hex(), "never_copied_twin": d_t.hex(),
+                           "clone_continued_differently": d_c2.hex()})
+    del mv, data
 
 
 def w_returned_objects(spec, ctx):
